@@ -82,10 +82,17 @@ class DynGen(solvegen.Gen):
         self.fs = own
         others = [x for x in own if x[0] != path]
         free = lambda: self.easy_rel(others) if others else ["bin", "Ne", ["f", path], ["lit", rnd.randint(lo, hi)]]
-        extra = [["expr", free()] for _ in range(rnd.randint(1, 2))]
-        if rnd.random() < 0.5:
-            blocks[rnd.randrange(2)]["stmts"].append(["expr", free()])
+        # blocks of 1-4 statements (a reference used as a Boolean term is the conjunction of ALL of them, odd counts included)
+        extra = [["expr", free()] for _ in range(rnd.choice([1, 2, 3, 3, 4]))]
+        if rnd.random() < 0.6:
+            b = blocks[rnd.randrange(2)]
+            for _ in range(rnd.choice([1, 2, 2])):
+                b["stmts"].append(["expr", free()])
         blocks.append({"name": "d2", "dynamic": True, "stmts": extra})
+        if rnd.random() < 0.5:
+            # a dynamic block that refers to another one which comes LATER in name order (a0 -> zz); zz is referenced nowhere else
+            blocks.append({"name": "zz", "dynamic": True, "stmts": [["expr", free()] for _ in range(rnd.choice([1, 2, 3]))]})
+            blocks.append({"name": "a0", "dynamic": True, "stmts": [["expr", ["dynref", [], "zz"]]] + ([["expr", free()]] if rnd.random() < 0.4 else [])})
         return blocks
 
     def fill_blocks(self, softs):
@@ -144,7 +151,8 @@ class DynGen(solvegen.Gen):
                 # alternate between the complementary blocks from call to call
                 out.append(["dyn", p, "d%d" % (k % 2)])
             elif r < 0.5:
-                out.append(["dyn", p, "d2"])
+                has_a0 = any(b["name"] == "a0" for c in sc["classes"] if c["name"] == cn for b in c["blocks"])
+                out.append(["dyn", p, "a0" if has_a0 and rnd.random() < 0.6 else "d2"])
             elif r < 0.75:
                 t = self.bool_tree(targets, k % 2)
                 if t[0] == "dynref":
